@@ -93,7 +93,7 @@ type GhostDecl struct {
 type Contracts struct {
 	Bounded   []*BoundedCheck
 	Guarded   map[string]string // "Struct.field" -> mutex field
-	Monitors  map[string]*GlobalFact // "Struct.mu" -> invariant over `self`, assumed at acquire, proved at release
+	Monitors  map[string][]*GlobalFact // "Struct.mu" -> invariants over `self`, assumed at acquire, proved at release
 	Ghosts    map[string]*GhostDecl
 	Funcs     map[string]*FuncSpec // key: pkg + "::" + Key
 	Defines   map[string]*Define   // by name (global)
@@ -104,7 +104,7 @@ type Contracts struct {
 }
 
 func NewContracts() *Contracts {
-	return &Contracts{Monitors: map[string]*GlobalFact{}, Guarded: map[string]string{}, Ghosts: map[string]*GhostDecl{}, Funcs: map[string]*FuncSpec{}, Defines: map[string]*Define{}, Abstracts: map[string]*Abstract{}, Immutable: map[string]bool{}}
+	return &Contracts{Monitors: map[string][]*GlobalFact{}, Guarded: map[string]string{}, Ghosts: map[string]*GhostDecl{}, Funcs: map[string]*FuncSpec{}, Defines: map[string]*Define{}, Abstracts: map[string]*Abstract{}, Immutable: map[string]bool{}}
 }
 
 var reProps = regexp.MustCompile(`^\[([A-Za-z0-9, ]+)\]`)
@@ -392,7 +392,7 @@ func (c *Contracts) Load(path string, defaultPkg string) error {
 			if err != nil {
 				return fail(err)
 			}
-			c.Monitors[strings.TrimSpace(name)] = &GlobalFact{Kind: "monitor", Name: strings.TrimSpace(name), Pkg: pkg, Props: props, Text: strings.TrimSpace(body), Expr: e, Where: where}
+			c.Monitors[strings.TrimSpace(name)] = append(c.Monitors[strings.TrimSpace(name)], &GlobalFact{Kind: "monitor", Name: strings.TrimSpace(name), Pkg: pkg, Props: props, Text: strings.TrimSpace(body), Expr: e, Where: where})
 			cur = nil
 		case "axiom", "lemma":
 			props, r2 := takeProps(rest)
